@@ -36,6 +36,9 @@ def run(F, X, rep):
     p_c17.p(F, X, rep, "C20-P", extra_files=("src/block_watcher.rs",))
 
 
+POLL_BOUND_SECS = 60        # the property's anchor: "poll every 60 s plus block_added subscription"
+
+
 def c_one_cell(F, X, rep, rid="C20-C"):
     rep.rule(rid, "there is ONE height cell: the Arc<Mutex<u32>> is created at one site and the field holding it is never re-assigned - the poll task, the notification handler and the reader all share it (a second cell splits the sources: the poll would raise a cell nobody reads)")
     news = []
@@ -259,6 +262,16 @@ def l_poll_loop(F, X, rep, rid="C20-L"):
             const = x[2]
     ok = const is not None and const > 0 and all(x[0] not in ("param", "field") for x in walk(e))
     rep.ob(rid, ok, fn, "poll interval is a positive constant", where=slc.loc, how="%s s" % const, detail="" if ok else "poll interval is %s" % show(e)[:60])
+    # "within one poll interval": the property's anchor names the interval ("poll every 60 s"); a longer constant leaves the height stale
+    # for longer than the bound a user of the property relies on (a shorter one only polls more often)
+    unit = [x[1] for x in walk(e) if x[0] == "call" and x[1].startswith("std::time::Duration::from_")]
+    secs = None
+    if ok and len(unit) == 1:
+        secs = {"from_secs": 1.0, "from_millis": 1e-3, "from_micros": 1e-6, "from_nanos": 1e-9, "from_mins": 60.0, "from_hours": 3600.0}.get(unit[0].split("::")[-1])
+        secs = None if secs is None else secs * const
+    okb = secs is not None and secs <= POLL_BOUND_SECS
+    rep.ob(rid, okb, fn, "poll interval is at most the %d s the property names" % POLL_BOUND_SECS, where=slc.loc, how="%s s" % secs,
+           detail="" if okb else "the poll interval is %s: lost notifications are repaired only after %s, not within the %d s poll interval the property names" % (show(e)[:60], ("%g s" % secs) if secs is not None else "an unknown time", POLL_BOUND_SECS))
     # spawn after one successful initial poll
     for bb in F.code_bodies():
         for c in bb.calls:
